@@ -197,6 +197,12 @@ pub fn bestmode(sink: &mut Sink, seed: u64, thorough: bool) {
         let id = sink.id();
         sink.emit(&json!({"ev": "BestMode", "id": id, "tag": format!("bestmode:{base}"), "input": p, "out": out}));
     }
+    for (cat, t) in unicode_texts(seed, thorough) {
+        let t2 = t.clone();
+        let out = match caught(move || mode_num(verif::best_encoding(&t2))) { Ok(m) => m, Err(_) => -2 };
+        let id = sink.id();
+        sink.emit(&json!({"ev": "BestMode", "id": id, "tag": format!("bestmode:unicode:{cat}"), "input": t, "out": out}));
+    }
 }
 
 /// C11: the candidates as the selection loop saw them (mask, score used for ranking, candidate matrix) and the choice.
